@@ -173,7 +173,7 @@ pub fn accesses(op: &Op) -> Vec<Acc> {
         Op::EventNew { ev, .. } => vec![Excl(*ev)],
         Op::AddEventFrom { slot: Some(s), ev } => vec![Read(*s), Excl(*ev)],
         Op::AddEventFrom { slot: None, ev } => vec![Excl(*ev)],
-        Op::UnwindScope { slot } | Op::ScopeBurst { slot, .. } | Op::Twin { slot: Some(slot), .. } => vec![Read(*slot)],
+        Op::UnwindScope { slot, .. } | Op::ScopeBurst { slot, .. } | Op::Twin { slot: Some(slot), .. } => vec![Read(*slot)],
         Op::Push { slot, set } => vec![Read(*slot), Read(*set)],
         Op::ToRecords { set, .. } => vec![Read(*set)],
         Op::NewTask { task, span, .. } => {
@@ -740,14 +740,27 @@ pub fn exec_op(ctx: &mut ThreadCtx, idx: usize, op: OpRef, o: &Op, inner: &[Op])
             }
             Ret::None
         }
-        Op::UnwindScope { slot } => {
+        Op::UnwindScope { slot, shape } => {
             struct HarnessUnwind;
             let sp = slot_span(&sh, *slot);
             let name = span_name(case.str_seed, op);
-            let r = std::panic::catch_unwind(std::panic::AssertUnwindSafe(|| {
-                let _g = sp.set_local_parent();
-                let _l = LocalSpan::enter_with_local_parent(name);
-                std::panic::resume_unwind(Box::new(HarnessUnwind));
+            let r = std::panic::catch_unwind(std::panic::AssertUnwindSafe(|| match shape % 3 {
+                0 => {
+                    let _g = sp.set_local_parent();
+                    let _l = LocalSpan::enter_with_local_parent(name);
+                    std::panic::resume_unwind(Box::new(HarnessUnwind));
+                }
+                1 => {
+                    let _g = sp.set_local_parent();
+                    let _c = fastrace::local::LocalCollector::start();
+                    let _l = LocalSpan::enter_with_local_parent(name);
+                    std::panic::resume_unwind(Box::new(HarnessUnwind));
+                }
+                _ => {
+                    let _l = LocalSpan::enter_with_local_parent(name);
+                    let _m = LocalSpan::enter_with_local_parent(span_name(case.str_seed, op + 1));
+                    std::panic::resume_unwind(Box::new(HarnessUnwind));
+                }
             }));
             if let Err(p) = r {
                 if !p.is::<HarnessUnwind>() {
